@@ -392,6 +392,128 @@ def check_C15(v, tier, seed):
     return cov
 
 
+def pre_C18(v):
+    """Regenerate the Lean tables from the sources before the theorems are built."""
+    rc, out = vlib.sh([sys.executable, os.path.join(VERIF, "tools", "abi_extract.py")])
+    if rc != 0:
+        v.fail({"kind": "translator"},
+               {"why": "the ABI translator could not parse the sources: " + out.strip(),
+                "broken": ["tools/abi_extract.py"]}, concrete=False)
+    return out.strip()
+
+
+def check_C18(v, tier, seed):
+    sys.argv = [sys.argv[0]]
+    import abi_extract as A
+    items = []
+    try:
+        rfns, renums, rstruct = A.parse_rust()
+        hfns, henums, hstruct = A.parse_header()
+        ren = A.parse_cbindgen()
+        gocalls, goconsts = A.parse_go()
+        pycalls, pyconsts, pytypedefs = A.parse_python()
+    except Exception as e:  # already reported by pre_C18
+        return {"evaluations": 1, "distinct_nontrivial": 0, "rule": "translator failed", "samples": [str(e)]}
+
+    def bad(what, detail):
+        v.fail({"kind": "oracle", "oracle": what, "item": detail},
+               {"why": f"{what}: {detail}", "case": {"item": detail}})
+
+    for n in sorted(set(rfns) | set(hfns)):
+        items.append(f"fn {n}")
+        if n not in hfns:
+            bad("exported function missing from include/pathrs.h", n)
+        elif n not in rfns:
+            bad("header declares a function the library does not export", n)
+        elif rfns[n] != hfns[n]:
+            bad("signature differs between Rust export and header", f"{n}: rust {rfns[n]} header {hfns[n]}")
+    for n in sorted(set(renums) | set(henums)):
+        items.append(f"enum {n}")
+        if renums.get(n) != henums.get(n):
+            bad("enum value differs", f"{n}: rust {renums.get(n)} header {henums.get(n)}")
+    items.append("struct pathrs_error_t")
+    if rstruct != hstruct:
+        bad("pathrs_error_t layout differs", f"rust {rstruct} header {hstruct}")
+    for n, classes, fn in gocalls:
+        items.append(f"go {fn}:{n}")
+        if n not in hfns:
+            bad("Go binding calls an undeclared function", n)
+        else:
+            d = hfns[n][1]
+            if len(d) != len(classes) or any(u != "any" and u != dd for dd, u in zip(d, classes)):
+                bad("Go binding passes arguments that do not match the header", f"{n}: header {d} call {classes} ({fn})")
+    for n, k in pycalls:
+        items.append(f"py {n}/{k}")
+        if n not in hfns:
+            bad("Python binding calls an undeclared function", n)
+        elif len(hfns[n][1]) != k:
+            bad("Python binding calls with the wrong number of arguments", f"{n}: header {len(hfns[n][1])} call {k}")
+    for c in set(goconsts) | set(pyconsts):
+        items.append(f"const {c}")
+        if c not in henums:
+            bad("binding uses an undeclared constant", c)
+    width = {"i32": 32, "u32": 32}
+    for name, cls in pytypedefs.items():
+        items.append(f"py typedef {name}")
+        real = {"dev_t": "devt"}.get(name)
+        if real and width.get(cls, 64) != width.get(real, 64):
+            bad("Python binding declares an integer typedef with the wrong width", f"{name} declared {cls}, ABI {real}")
+    if ren.get("CProcfsBase") != "pathrs_proc_base_t" or ren.get("CError") != "pathrs_error_t":
+        bad("cbindgen renames changed", str(ren))
+    extra = {}
+    if tier == "thorough":
+        extra = thorough_C18(v, hfns, henums)
+    cov = {
+        "evaluations": len(items),
+        "distinct_nontrivial": len(set(items)),
+        "rule": "every exported function, header declaration, enum constant, struct field, cgo call site and Python call site "
+                "extracted from the current sources; the Lean tables are regenerated from them on every run and "
+                "`check tables = true` is re-proved by `decide`; distinct = distinct declarations / call sites",
+        "samples": items[:5],
+        "exhaustive": True,
+        "programs": len(items),
+    }
+    cov.update(extra)
+    return cov
+
+
+def thorough_C18(v, hfns, henums):
+    """Build the staticlib from the working tree, compare its symbol table with the header and
+    compile + link a C unit with static assertions on the layout."""
+    tdir = os.path.join(CACHE, "target-capi")
+    rc, out = vlib.sh(["cargo", "rustc", "--offline", "--features", "capi", "--crate-type", "staticlib",
+                       "--target-dir", tdir], cwd=vlib.REPO, timeout=3600)
+    if rc != 0:
+        v.fail({"kind": "build"}, {"why": "capi staticlib build failed", "log": out[-3000:], "broken": ["cargo rustc staticlib"]}, concrete=False)
+        return {}
+    lib = os.path.join(tdir, "debug", "libpathrs.a")
+    rc, out = vlib.sh(["nm", "-g", "--defined-only", lib])
+    syms = {l.split()[-1] for l in out.splitlines() if " T " in l and l.split()[-1].startswith("pathrs_")}
+    for n in sorted(set(hfns) ^ syms):
+        v.fail({"kind": "oracle", "oracle": "symbol table differs from header", "item": n},
+               {"why": f"symbol {n}: in library={n in syms} in header={n in hfns}", "case": {"item": n}})
+    cfile = os.path.join(CACHE, "abi_check.c")
+    with open(cfile, "w") as f:
+        f.write("#include <stddef.h>\n#include <stdint.h>\n#include <sys/types.h>\n#include \"pathrs.h\"\n")
+        f.write("_Static_assert(sizeof(pathrs_error_t) == 16, \"size\");\n")
+        f.write("_Static_assert(_Alignof(pathrs_error_t) == 8, \"align\");\n")
+        f.write("_Static_assert(offsetof(pathrs_error_t, saved_errno) == 0, \"off0\");\n")
+        f.write("_Static_assert(offsetof(pathrs_error_t, description) == 8, \"off8\");\n")
+        f.write("_Static_assert(sizeof(pathrs_proc_base_t) == 8, \"base\");\n")
+        f.write("_Static_assert(sizeof(dev_t) == 8, \"dev_t\");\n")
+        for k, val in henums.items():
+            f.write(f"_Static_assert({k} == {val}ULL, \"{k}\");\n")
+        f.write("void *table[] = {" + ", ".join(f"(void *){n}" for n in sorted(hfns)) + "};\n")
+        f.write("int main(void) { return table[0] == 0; }\n")
+    exe = os.path.join(CACHE, "abi_check")
+    rc, out = vlib.sh(["gcc", "-I", os.path.join(vlib.REPO, "include"), cfile, lib, "-lpthread", "-ldl", "-lm", "-o", exe])
+    if rc != 0:
+        v.fail({"kind": "oracle", "oracle": "C unit does not compile/link against header + library"},
+               {"why": "a C translation unit with static assertions on the header's layout does not build against the library",
+                "log": out[-3000:], "case": {"file": cfile}})
+    return {"symbols_in_staticlib": len(syms), "c_unit_linked": rc == 0}
+
+
 def check_C17(v, tier, seed):
     args = ["capi-args"] + (["--thorough"] if tier == "thorough" else [])
     runs = [Run("C17-capi", args)]
@@ -513,8 +635,12 @@ PROPS = {
     "C11": check_C11,
     "C15": check_C15,
     "C16": check_C16,
+    "C18": check_C18,
     "C17": check_C17,
 }
+
+
+PRE = {"C18": pre_C18}
 
 
 def main(argv):
@@ -551,6 +677,10 @@ def main(argv):
         cov.update({"obligations": 1, "discharged": 0, "evaluations": 1, "distinct_nontrivial": 0})
         return v.finish(evidence)
 
+    # 1b. translator (C18): regenerate the model from the sources
+    if prop in PRE:
+        cov["translator"] = PRE[prop](v)
+
     # 2. theorems
     rc, out = build_lean([f"Pathrs.Proofs.Props.{prop}", "pathrs_model"])
     lean_ok = rc == 0
@@ -574,7 +704,7 @@ def main(argv):
                {"why": "a proof obligation of the property no longer checks",
                 "broken": ["lake build failed"] if not lean_ok else [f"{k}: {val}" for k, val in bad_axioms.items()] + banned,
                 "log": out[-4000:] if not lean_ok else ""}, concrete=False)
-        if not lean_ok:
+        if not lean_ok and prop not in PRE:
             cov.update({"evaluations": 1, "distinct_nontrivial": 0})
             return v.finish(evidence)
 
